@@ -67,18 +67,25 @@ theorem frame_of_kidsSafe (hu : DelimU u) {c : Cls} {mo mc : List MPat} {ks : Li
         · simpa using hwh
 
 mutual
-theorem nodeInv_of_delimSafe (hu : DelimU u) : (n : Node) → n.delimSafe u = true → NodeInv u .w n
-  | .tok _ _, _ => by simp [NodeInv]
-  | .grp c ks, h => by
+theorem nodeInv_of_delimSafe (hu : DelimU u) : (n : Node) → n.delimSafe u = true → nodeNW n = true → NodeInv u .w n
+  | .tok _ _, _, _ => by simp [NodeInv]
+  | .grp c ks, h, hn => by
     simp only [Node.delimSafe, Bool.and_eq_true] at h
+    simp only [nodeNW, Bool.and_eq_true, Bool.or_eq_true, bne_iff_ne, ne_eq] at hn
     rw [nodeInv_grp]
-    exact ⟨fun mo mc ht => frame_of_kidsSafe hu ht h.1, listInv_of_delimSafe hu ks h.2⟩
-theorem listInv_of_delimSafe (hu : DelimU u) : (ks : List Node) → delimSafeL u ks = true → ListInv u .w ks
-  | [], _ => by simp [ListInv]
-  | k :: ks, h => by
+    refine ⟨fun mo mc ht => frame_of_kidsSafe hu ht h.1, hn.1.1, ?_, listInv_of_delimSafe hu ks h.2 hn.2⟩
+    intro hc
+    rcases hn.1.2 with h1 | h1
+    · exact absurd hc h1
+    · exact h1
+theorem listInv_of_delimSafe (hu : DelimU u) : (ks : List Node) → delimSafeL u ks = true → nwL ks = true →
+    ListInv u .w ks
+  | [], _, _ => by simp [ListInv]
+  | k :: ks, h, hn => by
     simp only [delimSafeL, Bool.and_eq_true] at h
+    simp only [nwL, Bool.and_eq_true] at hn
     simp only [ListInv]
-    exact ⟨nodeInv_of_delimSafe hu k h.1, listInv_of_delimSafe hu ks h.2⟩
+    exact ⟨nodeInv_of_delimSafe hu k h.1 hn.1, listInv_of_delimSafe hu ks h.2 hn.2⟩
 end
 
 /-! ### out -/
@@ -114,7 +121,7 @@ theorem delimShape_of_nodeInv {ph : Ph} : (n : Node) → NodeInv u ph n → n.de
   | .grp c ks, h => by
     rw [nodeInv_grp] at h
     simp only [Node.delimShape, Bool.and_eq_true]
-    refine ⟨?_, delimShapeL_of_listInv ks h.2⟩
+    refine ⟨?_, delimShapeL_of_listInv ks h.2.2.2⟩
     cases ht : delimTables c with
     | none => simp [delimKidsShape, ht]
     | some p => obtain ⟨mo, mc⟩ := p; exact kidsShape_of_frame ht (h.1 mo mc ht)
@@ -124,6 +131,25 @@ theorem delimShapeL_of_listInv {ph : Ph} : (ks : List Node) → ListInv u ph ks 
     simp only [ListInv] at h
     simp only [delimShapeL, Bool.and_eq_true]
     exact ⟨delimShape_of_nodeInv k h.1, delimShapeL_of_listInv ks h.2⟩
+end
+
+/-! the tree invariant also says that every group has a non-whitespace child -/
+mutual
+theorem nodeNW_of_nodeInv {ph : Ph} : (n : Node) → NodeInv u ph n → nodeNW n = true
+  | .tok _ _, _ => rfl
+  | .grp c ks, h => by
+    rw [nodeInv_grp] at h
+    simp only [nodeNW, Bool.and_eq_true, Bool.or_eq_true, bne_iff_ne, ne_eq]
+    refine ⟨⟨h.2.1, ?_⟩, nwL_of_listInv ks h.2.2.2⟩
+    by_cases hc : c = .IdentifierList
+    · exact Or.inr (h.2.2.1 hc)
+    · exact Or.inl hc
+theorem nwL_of_listInv {ph : Ph} : (ks : List Node) → ListInv u ph ks → nwL ks = true
+  | [], _ => rfl
+  | k :: ks, h => by
+    simp only [ListInv] at h
+    simp only [nwL, Bool.and_eq_true]
+    exact ⟨nodeNW_of_nodeInv k h.1, nwL_of_listInv ks h.2⟩
 end
 
 end DC
